@@ -1296,6 +1296,221 @@ Definition fok (m : option envmap) (o : envmap) : bool := match m with Some e =>
 """
 
 
+
+# ================================================================== tools across the sandbox boundary (part E)
+def irdump_main(projdir, mode):
+    """sub-process: parse the project with the real RecipeSet (sandbox mode as `bob dev` would) and print, for
+    every step, the inputs and results of StepIR.getExecPath/getPaths/getLibraryPaths"""
+    os.chdir(projdir)
+    from bob.input import RecipeSet
+    from bob.utils import SandboxMode, asHexStr
+    from bob.cmds.build.build import ExecutableStep, LazyIR
+    recipes = RecipeSet()
+    recipes.parse({})
+    sm = SandboxMode(mode)
+    packages = recipes.generatePackages(lambda st, m: os.path.join("dump", st.getPackage().getName(), st.getLabel()),
+                                        sm.sandboxEnabled, sm.stablePaths)
+
+    def info(ir):
+        return {"valid": ir.isValid(), "stable": ir.stablePaths(), "sandboxed": ir.getSandbox() is not None,
+                "vid": asHexStr(ir.getVariantId()), "storage": ir.getStoragePath() if ir.isValid() else "", "name": ir.getPackage().getName()}
+    out = []
+
+    def walk(pkg, path):
+        for st in (pkg.getCheckoutStep(), pkg.getBuildStep(), pkg.getPackageStep()):
+            if not st.isValid():
+                continue
+            ir = ExecutableStep.fromStep(st, LazyIR)
+            rec = {"where": "/".join(path) + ":" + st.getLabel(), "self": info(ir), "self_exec": ir.getExecPath(),
+                   "tools": {n: {"step": info(t.getStep()), "path": t.getPath(), "libs": list(t.getLibs())} for n, t in ir.getTools().items()},
+                   "paths": ir.getPaths(), "libs": ir.getLibraryPaths(),
+                   "deps": [[info(d_), d_.getExecPath(ir)] for d_ in ir.getAllDepSteps()]}
+            out.append(rec)
+        for d_ in pkg.getAllDepSteps():
+            p_ = d_.getPackage()
+            walk(p_, path + [p_.getName()])
+    for d_ in packages.getRootPackage().getDirectDepSteps():
+        p_ = d_.getPackage()
+        walk(p_, [p_.getName()])
+    print(json.dumps(out))
+
+
+TOOLCHECK = r"""
+: > marker-%(pkg)s-%(lab)s
+shopt -s nullglob
+{
+  printf 'PATH\0%%s\0' "$PATH"
+  printf 'LD\0%%s\0' "$LD_LIBRARY_PATH"
+  IFS=: read -r -a ents <<< "$LD_LIBRARY_PATH"
+  for e in "${ents[@]}" ; do m=("$e"/libmarker-*) ; if [[ -d $e ]] ; then printf 'LDENT\0%%s\0dir\0%%s\0' "$e" "${m[*]##*/}" ; else printf 'LDENT\0%%s\0missing\0\0' "$e" ; fi ; done
+  for t in "${!BOB_TOOL_PATHS[@]}" ; do p="${BOB_TOOL_PATHS[$t]}" ; m=("$p"/toolmarker-*)
+     if [[ -d $p ]] ; then printf 'TOOL\0%%s\0%%s\0dir\0%%s\0' "$t" "$p" "${m[*]##*/}" ; else printf 'TOOL\0%%s\0%%s\0missing\0\0' "$t" "$p" ; fi ; done
+} > toolcheck.bin
+shopt -u nullglob
+"""
+
+
+def gen_boundary_project(rng):
+    """tools with libs on both sides of the sandbox boundary:
+       inner : tool dependency named BEFORE the sandbox dependency (tool on the host, consumer in the image)
+       outer : tool built inside the image, consumer on the host
+       boxed : sandbox first, tool second (both inside); plain : no sandbox at all"""
+    def libs():
+        pool = ["lib", "lib/extra", "l ib", "usr/lib64", "."]
+        return rng.sample(pool, rng.randint(1, 3))
+    tools = {}
+    recipes = {"sb": {"buildScript": "true", "packageScript": ": > marker-sb-dist\n",
+                      "provideSandbox": {"paths": ["/usr/local/bin", "/usr/bin", "/bin"], "mount": SB_MOUNTS}}}
+    for tn, boxed in (("tl", False), ("boxedtool", True), ("tl2", False)):
+        tl = libs()
+        tpath = rng.choice(["bin", ".", "b in"])
+        tools[tn] = {"libs": tl, "path": tpath}
+        mk = "".join("mkdir -p '%s' ; : > '%s/libmarker-%s-%d'\n" % (l_, l_, tn, i) for i, l_ in enumerate(tl))
+        mk += "mkdir -p '%s' ; : > '%s/toolmarker-%s'\n" % (tpath, tpath, tn)
+        r = {"buildScript": "true", "packageScript": mk, "provideTools": {"tool_" + tn: {"path": tpath, "libs": tl}}}
+        if boxed:
+            r["depends"] = [{"name": "sb", "use": ["sandbox"]}]
+        recipes[tn] = r
+    shapes = {"inner": ([{"name": "tl", "use": ["tools"]}, {"name": "sb", "use": ["sandbox"]}], ["tool_tl"]),
+              "outer": ([{"name": "boxedtool", "use": ["tools"]}], ["tool_boxedtool"]),
+              "boxed": ([{"name": "sb", "use": ["sandbox"], "forward": True}, {"name": "tl", "use": ["tools"]}], ["tool_tl"]),
+              "plain": ([{"name": "tl", "use": ["tools"]}], ["tool_tl"]),
+              "both": ([{"name": "tl2", "use": ["tools"]}, {"name": "sb", "use": ["sandbox"], "forward": True},
+                        {"name": "tl", "use": ["tools"]}], ["tool_tl", "tool_tl2"])}
+    for nm, (deps, used) in shapes.items():
+        kind = rng.choice(["buildTools", "packageTools"])
+        r = {"root": True, "depends": deps, kind: used}
+        r["buildScript"] = TOOLCHECK % {"pkg": nm, "lab": "build"}
+        r["packageScript"] = TOOLCHECK % {"pkg": nm, "lab": "dist"}
+        recipes[nm] = r
+    desc = {"recipes": recipes, "classes": {}, "config": {"bobMinimumVersion": "0.25"}, "default": {}}
+    return desc, {"tools": tools, "shapes": {k: v[1] for k, v in shapes.items()}}
+
+
+def coq_irstep(i):
+    return ("{| ir_valid := %s; ir_stable := %s; ir_sandboxed := %s; ir_vid := %s; ir_storage := %s; ir_name := %s |}" %
+            (L.B(i["valid"]), "None" if i["stable"] is None else "(Some %s)" % L.B(i["stable"]), L.B(i["sandboxed"]), L.s(i["vid"]),
+             L.s(i["storage"]), L.s(i["name"])))
+
+
+PRE_E = """
+Definition emodel (i : irstep * list (str * irtool) * list irstep) :=
+  let '(self, tools, deps) := i in
+  (tool_paths self tools, library_paths self tools, map (fun d => exec_path d (Some self)) deps, exec_path self None).
+Definition eok (m o : list str * list str * list str * str) : bool :=
+  let '(a, b, c, d) := m in let '(a', b', c', d') := o in
+  eqb_list eqb_str a a' && eqb_list eqb_str b b' && eqb_list eqb_str c c' && eqb_str d d'.
+"""
+SIG_TOOLDIR = "tool-directory-not-reachable"
+
+
+def part_e(ctx, tmp):
+    rng = ctx.rng
+    t0 = _time.time()
+    modes = [("--sandbox", "yes")] * ctx.n(1, 6) + ([("--dev-sandbox", "dev"), ("--strict-sandbox", "strict"), ("--slim-sandbox", "slim"), (None, "no")]
+                                                   if ctx.tier == "thorough" else [])
+    prepared = []
+    for i, (flag, mode) in enumerate(modes):
+        desc, info = gen_boundary_project(rng)
+        pd = os.path.join(tmp, "tb%d x'y" % i)
+        os.makedirs(pd)
+        proj.write_project(desc, pd)
+        prepared.append((i, flag, mode, desc, info, pd))
+
+    def build(a):
+        i, flag, mode, desc, info, pd = a
+        host = proj.bob_env()
+        rc, out = run_bob_stdin(pd, ["dev", "inner", "outer", "boxed", "plain", "both", "-j", "1", "--no-audit", "--no-logfiles"] + ([flag] if flag else []),
+                                host, subprocess.DEVNULL)
+        r = subprocess.run(["/venv/bin/python", os.path.abspath(__file__), "irdump", pd, mode], env=host, stdout=subprocess.PIPE,
+                           stderr=subprocess.PIPE, stdin=subprocess.DEVNULL, text=True, timeout=900)
+        return rc, out, (json.loads(r.stdout) if r.returncode == 0 else {"error": r.stderr[-1500:]})
+    with ThreadPoolExecutor(max_workers=NPAR) as ex:
+        results = list(ex.map(build, prepared))
+    t0 = tick(ctx, "e:bob-dev", t0)
+    cases, meta = [], []
+    for (i, flag, mode, desc, info, pd), (rc, out, dump) in zip(prepared, results):
+        replay = {"kind": "tool-boundary", "desc": desc, "mode": flag}
+        ctx.count("tool-boundary:" + str(flag))
+        if rc != 0:
+            ctx.violation("build-of-valid-project-failed", "bob dev %s returned %d: %s" % (flag, rc, out[-600:]), replay)
+            continue
+        # ---- the real runs: every tool directory on PATH / LD_LIBRARY_PATH exists inside the step and is the right one
+        for pk, used in info["shapes"].items():
+            for lab in ("build", "dist"):
+                spf = os.path.join(pd, "dev", lab, pk, "1", "step.spec")
+                if not os.path.exists(spf):
+                    continue
+                spec = json.load(open(spf))
+                f = os.path.join(pd, spec["workspace"][0], "toolcheck.bin")
+                ctx.evaluated()
+                where = "%s/%s (%s)" % (pk, lab, flag)
+                if not os.path.exists(f):
+                    ctx.violation("step-did-not-dump", where, replay)
+                    continue
+                rec = parse_nul(open(f, "rb").read().decode("utf-8", "surrogateescape"))
+                ld = rec[rec.index("LD") + 1]
+                pth = rec[rec.index("PATH") + 1]
+                ldents = [(rec[j + 1], rec[j + 2], rec[j + 3]) for j in range(len(rec)) if rec[j] == "LDENT" and j + 3 < len(rec)]
+                tls = [(rec[j + 1], rec[j + 2], rec[j + 3], rec[j + 4]) for j in range(len(rec)) if rec[j] == "TOOL" and j + 4 < len(rec)]
+                has_tools = bool(spec["paths"])
+                ctx.count("tool-step:" + ("sandboxed" if "sandbox" in spec else "host") + (":with-tools" if has_tools else ":no-tools"))
+                if not has_tools:
+                    continue
+                exp_markers = []
+                for tn in sorted(used):
+                    t_ = tn[len("tool_"):]
+                    exp_markers += ["libmarker-%s-%d" % (t_, k_) for k_ in range(len(info["tools"][t_]["libs"]))]
+                got_markers = [m_.split(" ")[0] if m_ else "" for (_, st_, m_) in ldents]
+                missing = [e_ for (e_, st_, _) in ldents if st_ != "dir"]
+                if missing or got_markers != exp_markers:
+                    ctx.violation(SIG_TOOLDIR + ":LD_LIBRARY_PATH" + (":consumer-in-image" if "sandbox" in spec else ":consumer-on-host"),
+                                  "%s: LD_LIBRARY_PATH=%r; entries missing inside the step: %r; library markers found %r, expected %r"
+                                  % (where, ld, missing, got_markers, exp_markers), replay)
+                badt = [t_ for t_ in tls if t_[2] != "dir" or ("toolmarker-" + t_[0][5:]) not in t_[3].split(" ")]
+                front = pth.split(":")[:len(spec["paths"])]
+                if badt or any(not p_.startswith("/") for p_ in front):
+                    ctx.violation(SIG_TOOLDIR + ":PATH", "%s: tool paths %r / PATH front %r" % (where, tls, front), replay)
+                # equal to the prediction from the step.spec (model: tools_on_path, checked in part C style)
+                ab = lambda p_: os.path.normpath(os.path.join(pd, p_))
+                if ld != ":".join(ab(p_) for p_ in spec["libraryPaths"]) or front != [ab(p_) for p_ in spec["paths"]]:
+                    ctx.violation("bob-variable-value:LD_LIBRARY_PATH", "%s: script saw LD_LIBRARY_PATH=%r PATH front %r, step.spec says %r / %r"
+                                  % (where, ld, front, spec["libraryPaths"], spec["paths"]), replay)
+                # every library directory lies inside a mounted dependency
+                if "sandbox" in spec or spec["slimSandbox"]:
+                    execs = [ab(e_) for _, e_ in spec["depMounts"]]
+                    for e_ in ld.split(":"):
+                        if e_ and not any(e_ == x or e_.startswith(x.rstrip("/") + "/") for x in execs):
+                            ctx.violation(SIG_TOOLDIR + ":not-inside-mounted-dependency", "%s: %r is not below any of %r" % (where, e_, execs), replay)
+                ctx.nontrivial(("tool-step", i, pk, lab, flag))
+        # ---- model of getExecPath/getPaths/getLibraryPaths vs the implementation (all steps of the project)
+        if "error" in dump:
+            ctx.tie_broken("irdump-failed", dump["error"])
+            continue
+        for rec in dump:
+            ctx.evaluated()
+            tools = L.lst(["(%s, {| it_step := %s; it_path := %s; it_libs := %s |})" % (L.s(n_), coq_irstep(t_["step"]), L.s(t_["path"]), coq_strs(t_["libs"]))
+                           for n_, t_ in rec["tools"].items()])
+            deps = L.lst([coq_irstep(d_[0]) for d_ in rec["deps"]])
+            cases.append(("(%s, (%s : list (str * irtool)), (%s : list irstep))" % (coq_irstep(rec["self"]), tools, deps),
+                          "(%s, %s, %s, %s)" % (coq_strs(rec["paths"]), coq_strs(rec["libs"]), coq_strs([d_[1] for d_ in rec["deps"]]), L.s(rec["self_exec"]))))
+            meta.append({"where": rec["where"], "mode": flag, "libs": rec["libs"], "paths": rec["paths"], "tools": rec["tools"], "self": rec["self"]})
+            if rec["tools"] and any(t_["step"]["sandboxed"] != rec["self"]["sandboxed"] for t_ in rec["tools"].values()):
+                ctx.count("ir-step:tool-across-sandbox-boundary")
+                ctx.nontrivial(("ir", i, rec["where"]))
+    t0 = tick(ctx, "e:oracle", t0)
+    bad, log = coq.run_cases(ctx, REQ, "emodel", "eok", cases, preamble=PRE_E, tag="eir", shard=40)
+    if bad is None:
+        ctx.tie_broken("C13 exec-path model evaluation failed", log)
+    else:
+        ctx.validated(len(cases) - len(bad))
+        if bad:
+            vals, _ = coq.eval_terms(ctx, REQ, ["emodel %s" % cases[bad[0]][0]], preamble=PRE_E)
+        for n_, j in enumerate(bad[:3]):
+            ctx.tie_broken("exec-path/getPaths/getLibraryPaths-correspondence", dict(meta[j], model=(vals[0][:2000] if vals and n_ == 0 else "")))
+    tick(ctx, "e:coq", t0)
+
+
 def corpus_projects(ctx, tmp):
     """recipe-level corpus: projects that must be rejected when parsed"""
     for n_, f in enumerate(sorted(glob.glob(os.path.join(core.VERIF, "corpus", "C13", "project_*.json")))):
@@ -1367,6 +1582,8 @@ def replay(ctx, tmp):
         corpus_projects(ctx, tmp)
     elif kind == "name":
         name_validation(ctx)
+    elif kind == "tool-boundary":
+        part_e(ctx, tmp)
     else:
         part_d(ctx, tmp)
 
@@ -1393,7 +1610,7 @@ def run(ctx):
         "a declared variable named `_` is overwritten by bash itself; not generated",
     ]
     ctx.trusted_base += ["real /bin/bash as the reference for bash_word", "Linux mount namespaces (sandbox runs)"]
-    parts = os.environ.get("C13_PARTS", "abcd")       # development aid: run only some layers
+    parts = os.environ.get("C13_PARTS", "abcde")       # development aid: run only some layers
     tmp = core.scratch_dir("c13")
     try:
         if ctx.replay:
@@ -1411,6 +1628,8 @@ def run(ctx):
             part_c(ctx, tmp)
         if "d" in parts:
             part_d(ctx, tmp)
+        if "e" in parts:
+            part_e(ctx, tmp)
         ctx.note("phase seconds: %r" % _T)
     finally:
         shutil.rmtree(tmp, ignore_errors=True)
@@ -1419,3 +1638,5 @@ def run(ctx):
 if __name__ == "__main__":
     if len(sys.argv) == 4 and sys.argv[1] == "worker":
         worker_main(sys.argv[2], sys.argv[3])
+    elif len(sys.argv) == 4 and sys.argv[1] == "irdump":
+        irdump_main(sys.argv[2], sys.argv[3])
